@@ -89,14 +89,16 @@ theorem byte_same_as_i8 (nm : String) (allow : Bool) :
       doParseType (.prim .int8 nm) true "i8".toList allow :=
   byte_is_i8 nm allow
 
-/-- spelling: package-qualified struct name ≡ bare name -/
+/-- spelling: package-qualified struct name ≡ bare name — for every Go type the annotation is matched
+    against, a field of *anonymous* struct type included (D23: the hypothesis `vt.name ≠ ""` that the
+    proof had forced marked the point where the code was wrong: an anonymous struct answered before
+    the qualifier was consumed, so `list<pkg.Item>` was rejected where `list<Item>` is accepted) -/
 theorem qualified_struct_name_same (vt : GoTy) (pkg nm rest : List Char) (hp : identLike pkg)
     (hn : identLike nm) (hrest : stopsIdent rest) (hnodot : ∀ r, rest ≠ '.' :: r)
     (hkw1 : isKeyword .strct pkg = false) (hkw2 : isKeyword .strct nm = false)
-    (hend : ∃ tok sp, readToken rest true = some (tok, sp) ∧ (tok = [] ∨ tok = [':'] ∨ tok = ['>']))
-    (hnamed : vt.name ≠ "") :
+    (hend : ∃ tok sp, readToken rest true = some (tok, sp) ∧ (tok = [] ∨ tok = [':'] ∨ tok = ['>'])) :
     matchAnnot vt .strct (pkg ++ '.' :: nm ++ rest) = matchAnnot vt .strct (nm ++ rest) :=
-  qualified_name_same vt pkg nm rest hp hn hrest hnodot hkw1 hkw2 hend hnamed
+  qualified_name_same vt pkg nm rest hp hn hrest hnodot hkw1 hkw2 hend
 
 /-- what the resolver accepts satisfies every well-formedness assumption of the codec theorems -/
 theorem accepted_schema_ok (U : Universe) : (schemaOf U).ok = true := schemaOf_ok U
@@ -112,6 +114,10 @@ example : identLike "base".toList ∧ identLike "Msg".toList ∧ stopsIdent ">".
 
 example : matchAnnot (.strct "Msg" 0) .strct "base.Msg>".toList =
     matchAnnot (.strct "Msg" 0) .strct "Msg>".toList := by decide
+
+/-- an anonymous struct: both spellings are accepted and leave the same rest -/
+example : matchAnnot (.strct "" 0) .strct "base.Msg>".toList = some (">".toList, false) ∧
+    matchAnnot (.strct "" 0) .strct "Msg>".toList = some (">".toList, false) := by decide
 
 /-- the hand-written model of the resolver functions (`DoResolveFields`, `lookupStructTag`, `trimSpaces`, `doParseType`, `doParseSlice`, `doMatchStruct`, `readToken`, `newStructDesc`, `fromDefsField`) was written from, and validated against, code with exactly this
     control structure (guards, switches, loops, returns, call sequence): regenerated fingerprint =
